@@ -1002,6 +1002,69 @@ func (w *World) TSet(basis int, txn types.V2Transaction, kind string) (set []typ
 		}
 		w.CheckLedgerProofs("v2transactionset-proof-differs-from-ledger", "V2TransactionSet("+kind+")", set, w.Led)
 		w.LenientLedger = false
+		// every pooled unconfirmed v2 ancestor of the transaction must be in the set
+		if w.ExpectTSetOK {
+			byOut := map[types.SiacoinOutputID]int{}
+			for i := range w.LastV2 {
+				id := w.LastV2[i].ID()
+				for k := range w.LastV2[i].SiacoinOutputs {
+					byOut[w.LastV2[i].SiacoinOutputID(id, k)] = i
+				}
+			}
+			inSet := map[types.TransactionID]bool{}
+			for i := range set {
+				inSet[set[i].ID()] = true
+			}
+			need := map[int]bool{}
+			queue := []types.V2Transaction{txn}
+			for len(queue) > 0 {
+				t := queue[0]
+				queue = queue[1:]
+				for _, in := range t.SiacoinInputs {
+					if i, has := byOut[in.Parent.ID]; has && !need[i] {
+						need[i] = true
+						queue = append(queue, w.LastV2[i])
+					}
+				}
+			}
+			missing := 0
+			for i := range need {
+				if !inSet[w.LastV2[i].ID()] {
+					missing++
+				}
+			}
+			if missing > 0 {
+				w.C.Oracle("v2transactionset-"+kind+"-ancestor-missing", "V2TransactionSet(%s): %d of the %d pooled unconfirmed ancestors of the transaction are not in the returned set", kind, missing, len(need))
+			}
+			// ... and a fresh peer on the same tip (empty pool) must accept the set with the returned basis,
+			// unless an input is created by a pooled v1 transaction (which a v2 set cannot carry)
+			v1dep := false
+			v1out := map[types.SiacoinOutputID]bool{}
+			for _, t := range w.LastV1 {
+				for k := range t.SiacoinOutputs {
+					v1out[t.SiacoinOutputID(k)] = true
+				}
+			}
+			for i := range set {
+				for _, in := range set[i].SiacoinInputs {
+					if v1out[in.Parent.ID] {
+						v1dep = true
+					}
+				}
+			}
+			if !v1dep {
+				peer := w.Tree.Twin(w.TipID())
+				cp := make([]types.V2Transaction, len(set))
+				for i := range set {
+					cp[i] = set[i].DeepCopy()
+				}
+				var perr error
+				if !w.Guard("peer-addv2pooltransactions-panic", "fresh peer AddV2PoolTransactions", func() { _, perr = peer.CM.AddV2PoolTransactions(idx, cp) }) && perr != nil {
+					w.C.Oracle("v2transactionset-"+kind+"-rejected-by-fresh-peer", "V2TransactionSet(%s): a node on the same tip with an empty pool rejects the returned set of %d transactions with the returned basis: %v", kind, len(set), perr)
+				}
+				w.Stats["tset:peer-checked"]++
+			}
+		}
 		// the returned transactions are the caller's: overwriting them must not reach the pool
 		d0 := DigestV2(w.Node.CM.V2PoolTransactions())
 		probe := make([]types.V2Transaction, len(set))
